@@ -1,0 +1,55 @@
+//go:build verif
+
+// Contracts for nsq_to_http (C20), checked by nsqvc. Comment-only file.
+// Assumed library contracts and ghost observers: .trusted/relay.spec.
+
+package main
+
+// go-nsq finishes a message when the handler returns nil and requeues it otherwise, so
+// "finish only after the destination accepted" is: HandleMessage returns nil only if no publish failed.
+
+//@ pred sampledOut() := (old(*sample) < float64(1) && lastRand > old(*sample))
+//@ pred validHTTPPH(ph *PublishHandler) := (ph != nil && ph.Publisher != nil && ph.perAddressStatus != nil && len(ph.addresses) >= 1 && (ph.mode == ModeHostPool ==> ph.hostPool != nil))
+
+//@ func (ph *PublishHandler) HandleMessage(m *nsq.Message) error
+//@   props C20
+//@   requires validHTTPPH(ph) && m != nil
+//@   requires[flag-initialised] sample != nil
+//@   requires[mode-is-valid] ph.mode == ModeAll || ph.mode == ModeRoundRobin || ph.mode == ModeHostPool
+//@   ensures[nil-iff-no-publish-failed] (result == nil) <==> (httpPubFailures == old(httpPubFailures))
+//@   ensures[stops-at-first-failure] httpPubFailures <= old(httpPubFailures) + 1
+//@   ensures[sampled-out-nothing] sampledOut() ==> httpPubCalls == old(httpPubCalls) && result == nil
+//@   ensures[all-destinations] !sampledOut() && result == nil && ph.mode == ModeAll ==> httpPubCalls == old(httpPubCalls) + len(ph.addresses)
+//@   ensures[one-destination] !sampledOut() && ph.mode != ModeAll ==> httpPubCalls == old(httpPubCalls) + 1
+//@   modifies ph.counter, lastNow, lastRand, httpPubCalls, httpPubFailures, httpPubLastAddr
+//@   loop 0
+//@     invariant[range] rangeindex < len(ph.addresses)
+//@     invariant[count] httpPubCalls == old(httpPubCalls) + rangeindex + 1
+//@     invariant[no-failure-so-far] httpPubFailures == old(httpPubFailures)
+//@     invariant[in-order] rangeindex >= 0 ==> httpPubLastAddr == ph.addresses[rangeindex]
+
+// One HTTP request per call (or none when the request cannot be built); a transport error is passed on.
+//@ func HTTPPost(endpoint string, body *bytes.Buffer) (*http.Response, error)
+//@   props C20
+//@   requires[client-initialised] httpclient != nil && contentType != nil
+//@   ensures[response-or-error] result1 == nil ==> result0 != nil
+//@   ensures[one-request] result1 == nil ==> httpDoCalls == old(httpDoCalls) + 1 && !httpDoFailed
+//@   ensures[at-most-one-request] httpDoCalls <= old(httpDoCalls) + 1
+//@   modifies httpDoCalls, httpDoFailed
+//@   loop 0
+//@     invariant httpDoCalls == old(httpDoCalls)
+
+//@ func HTTPGet(endpoint string) (*http.Response, error)
+//@   props C20
+//@   requires[client-initialised] httpclient != nil
+//@   ensures[response-or-error] result1 == nil ==> result0 != nil
+//@   ensures[one-request] result1 == nil ==> httpDoCalls == old(httpDoCalls) + 1 && !httpDoFailed
+//@   ensures[at-most-one-request] httpDoCalls <= old(httpDoCalls) + 1
+//@   modifies httpDoCalls, httpDoFailed
+//@   loop 0
+//@     invariant httpDoCalls == old(httpDoCalls)
+
+// PostPublisher.Publish / GetPublisher.Publish are NOT under contract: resp.Body and resp.StatusCode are
+// fields of a library struct, which the engine reads as arbitrary values (every read a new one), so
+// "nil iff status in [200,300)" cannot be stated and resp.Body.Close() yields an undischargeable
+// nil-interface obligation. See ENGINE GAPS in NOTES.md (the intended contract is kept there).
